@@ -234,7 +234,9 @@ def run(chk):
     # then the conversions: aimed at index arithmetic on category values (sequence numbers, ids, operation expressions)
     cif_files = [p_ for (p_, ext) in files if ext in ('.cif', '.ent')]
     rc_, out_, err_ = vlib.run_lines(h, [], inp=''.join('cifcount\t%s\n' % p_ for p_ in cif_files).encode())
-    INT_VALS = [0, 1, 2, 3, 4, 5, 6, 7, 8, 9, 12, 25, 26]   # indices of the integer-flavoured special values
+    # indices of the integer-flavoured special values, and of the list / range / parenthesised spellings that columns
+    # such as _pdbx_struct_assembly_gen.oper_expression accept in place of a number (1-2, (1-3)(4,5), (X0)(1-60), 1,2,,3)
+    INT_VALS = [0, 1, 2, 3, 4, 5, 6, 7, 8, 9, 12, 25, 26, 22, 23, 24, 34]
     for p_, l in zip(cif_files, out_):
         try:
             ncol, flags = l.split('\t')[2].split()
